@@ -14,9 +14,10 @@ PROPERTY = "C21"
 CASES = {"quick": 192, "thorough": 4000}
 RULE = ("case = 40-120 packets: SOF number walk (repeat/skip/wrap/random) with damaged SOFs and foreign packets between; "
         "non-trivial = >=1 repeat, >=1 change and >=1 damaged SOF; distinct = hash of packet list and gap profile")
-REQUIRED_BINS = ["sof_repeat", "sof_change", "sof_wrap", "damaged_sof", "other_packet_between", "microframe_wrap_8", "sof_one_bit_change"]
+REQUIRED_BINS = ["sof_repeat", "sof_change", "sof_wrap", "damaged_sof", "other_packet_between", "microframe_wrap_8", "sof_one_bit_change", "bus_reset", "first_sof_after_bus_reset"]
 REQUIRED_EVENTS = ["sof_detected_strobes", "new_frame_strobes", "good_sofs_sent", "cycles_monitored"]
-ASSUMPTIONS = ["frame outputs are judged from 3 cycles after the end of each packet until the next packet ends (registration latency is not constrained)",
+ASSUMPTIONS = ["across a bus reset the remembered frame/microframe numbers are not specified: the first SOF after a reset may or may not raise new_frame, the microframe number is judged again from the next frame change; strobes outside packets are violations at all times",
+               "frame outputs are judged from 3 cycles after the end of each packet until the next packet ends (registration latency is not constrained)",
                "the first SOF after reset whose number is 0 equals the reset value: new_frame is then not expected (number did not change)"]
 
 
@@ -64,15 +65,19 @@ def run_case(rng, tier, res):
         if nf:
             strobes["new"].append(b.cycle)
             res.event("new_frame_strobes")
+        # a strobe may only occur while a packet is on the wire or in the few cycles after it
+        if (sd or nf) and not host.rx_busy and b.cycle > host.last_rx_end + 6:
+            res.violation("strobe_outside_any_sof", "cyc=%d sof_detected=%d new_frame=%d with no packet on the wire since cycle %d%s" % (
+                b.cycle, sd, nf, host.last_rx_end, " (after a bus reset)" if state["after_reset"] else ""))
         # steady-state comparison
         st = state
-        if st["stable_from"] is not None and b.cycle >= st["stable_from"] and not host.rx_busy:
+        if st["stable_from"] is not None and b.cycle >= st["stable_from"] and not host.rx_busy and ref["frame"] is not None:
             if f != ref["frame"]:
                 res.violation("frame_number_mismatch", "cyc=%d frame=%d expected=%d" % (b.cycle, f, ref["frame"]))
-            if mf != ref["micro"]:
+            if ref["micro"] is not None and mf != ref["micro"]:
                 res.violation("microframe_mismatch", "cyc=%d frame=%d micro=%d expected=%d last=%s" % (b.cycle, f, mf, ref["micro"], res.desc["packets"][-3:]))
 
-    state = {"stable_from": 0}
+    state = {"stable_from": 0, "window_end": 0, "after_reset": False}
 
     def send(pkt, kind, **kw):
         # outputs may change while the packet is in flight / just after; suspend steady-state comparison
@@ -83,7 +88,13 @@ def run_case(rng, tier, res):
         info = U.classify(pkt) if not kw.get("abort_after") else {"kind": "aborted"}
         good = info["kind"] == "sof" and kw.get("abort_after") is None
         changed = False
-        if good:
+        unknown = good and ref["frame"] is None
+        if unknown:
+            # first SOF after a bus reset: what the device remembered across the reset is not specified
+            res.event("good_sofs_sent")
+            res.bin("first_sof_after_bus_reset")
+            ref["frame"], ref["micro"] = info["frame"], None
+        elif good:
             res.event("good_sofs_sent")
             fr = info["frame"]
             changed = fr != ref["frame"]
@@ -93,7 +104,8 @@ def run_case(rng, tier, res):
                 if fr < ref["frame"]:
                     res.bin("sof_wrap")
             else:
-                ref["micro"] = (ref["micro"] + 1) % 8
+                if ref["micro"] is not None:
+                    ref["micro"] = (ref["micro"] + 1) % 8
                 res.bin("sof_repeat")
                 if ref["micro"] == 0:
                     res.bin("microframe_wrap_8")
@@ -102,7 +114,13 @@ def run_case(rng, tier, res):
         # judge strobes for this packet
         ds = len(strobes["sof"]) - n_sof
         dn = len(strobes["new"]) - n_new
-        if good:
+        state["window_end"] = b.cycle + 2
+        if unknown:
+            if ds != 1:
+                res.violation("sof_detected_count", "good SOF %s (first after bus reset) -> %d sof_detected strobes" % (pkt.hex(), ds))
+            if dn > 1:
+                res.violation("new_frame_count", "good SOF %s (first after bus reset) -> %d new_frame strobes" % (pkt.hex(), dn))
+        elif good:
             if ds != 1:
                 res.violation("sof_detected_count", "good SOF %s -> %d sof_detected strobes" % (pkt.hex(), ds))
             if dn != (1 if changed else 0):
@@ -123,6 +141,18 @@ def run_case(rng, tier, res):
         n = rng.randint(40, 120)
         for _ in range(n):
             r = rng.random()
+            if rng.random() < 0.04:
+                # bus reset: SE0 on the line for longer than 2.5 us (150 cycles of the 60 MHz sequencer), then idle J again
+                yield from host.idle(rng.randint(8, 30))
+                b.set(utmi.line_state, 0b00)
+                yield from host.idle(rng.randint(200, 420))
+                b.set(utmi.line_state, 0b01)
+                yield from host.idle(rng.randint(20, 200))
+                ref["frame"], ref["micro"] = None, None
+                state["after_reset"] = True
+                res.bin("bus_reset")
+                res.sig("bus_reset")
+                continue
             if r < 0.55:
                 # SOF walk
                 w = rng.random()
